@@ -287,7 +287,7 @@ pub fn run(opts: &Opts) -> Report {
     let a = Respacing;
     let b = NoSpace;
     crate::props::committed_replays(&a, opts, &mut rep);
-    run_sub(&a, opts, opts.tier.pick(6000, 150_000), &mut rep);
+    run_sub(&a, opts, opts.tier.pick(20_000, 300_000), &mut rep);
     run_sub(&b, opts, opts.tier.pick(600, 6000), &mut rep);
     rep
 }
